@@ -270,7 +270,7 @@ pub fn ext_structure() -> BoxedStrategy<ExtStructure> {
 }
 
 pub fn ext_spec() -> BoxedStrategy<ExtSpec> {
-    (ext_structure(), prop_oneof![Just(ExtStyle::Compliant), Just(ExtStyle::Legacy)])
+    (ext_structure(), prop_oneof![2 => Just(ExtStyle::Compliant), 2 => Just(ExtStyle::Legacy), 1 => Just(ExtStyle::ShortLength)])
         .prop_map(|(structure, style)| ExtSpec { structure, style })
         .boxed()
 }
